@@ -105,14 +105,18 @@ fn push_new(rng: &mut Rng, m: &mut Module, n: u32) -> Key {
 }
 
 fn keys_of(a2l: &A2lFile) -> Result<Vec<Key>, String> {
+    keys_of_module(a2l, 0)
+}
+
+fn keys_of_module(a2l: &A2lFile, module_idx: usize) -> Result<Vec<Key>, String> {
     let text = a2l.write_to_string();
     let order = module_level_order(&text)?;
     Ok(order
         .into_iter()
-        .next()
+        .nth(module_idx)
         .unwrap_or_default()
         .into_iter()
-        .filter(|(k, _)| !SINGLETONS.contains(&k.as_str()) && k != "IF_DATA")
+        .filter(|(k, _)| !SINGLETONS.contains(&k.as_str()))
         .map(|(k, n)| if k == "VARIANT_CODING" { (k, String::new()) } else { (k, n) })
         .collect())
 }
@@ -219,6 +223,23 @@ fn history(rng: &mut Rng, rec: &mut Recorder, len: usize, size: usize, label: &s
         // half of the destination files have no VARIANT_CODING, so that a merge can bring one
         a0.project.module[0].variant_coding = None;
     }
+    // one history in four works on the second module of a file with two modules (merges go into
+    // the first module, so they are replaced by pushes there)
+    let tm = if rng.chance(1, 4) {
+        let cfg2 = ModCfg {
+            size,
+            universe: (size * 3).max(12),
+            prefix: "s_".into(),
+            marker_base: 50_000,
+            ..ModCfg::default()
+        };
+        let m2 = Gen::new(rng, cfg2).module("m_second");
+        a0.project.module.push(m2);
+        rec.bump("histories_on_second_module");
+        1
+    } else {
+        0
+    };
     let mut a = match as_loaded(&a0) {
         Ok(a) => a,
         Err(e) => {
@@ -226,6 +247,7 @@ fn history(rng: &mut Rng, rec: &mut Recorder, len: usize, size: usize, label: &s
             return;
         }
     };
+    let keys_of = |x: &A2lFile| keys_of_module(x, tm);
     let mut placed = match keys_of(&a) {
         Ok(k) => k,
         Err(_) => return,
@@ -241,7 +263,8 @@ fn history(rng: &mut Rng, rec: &mut Recorder, len: usize, size: usize, label: &s
     for step in 0..len {
         let op = match rng.below(10) {
             0..=3 => Op::Push,
-            4 => Op::Merge,
+            4 if tm == 0 => Op::Merge,
+            4 => Op::Push,
             5..=7 => Op::SortNew,
             _ => Op::Write,
         };
@@ -258,7 +281,7 @@ fn history(rng: &mut Rng, rec: &mut Recorder, len: usize, size: usize, label: &s
         match op {
             Op::Push => {
                 n_new += 1;
-                let k = push_new(rng, &mut a.project.module[0], n_new);
+                let k = push_new(rng, &mut a.project.module[tm], n_new);
                 fresh.push(k);
             }
             Op::Merge => {
@@ -282,7 +305,22 @@ fn history(rng: &mut Rng, rec: &mut Recorder, len: usize, size: usize, label: &s
                 } else {
                     rec.bump("merge.api_built_module");
                 }
-                let mut before = keys_of(&b).unwrap_or_default();
+                if rng.coin() {
+                    // module-level IF_DATA of B (loaded from text, so it carries the uid and line of its
+                    // own file); it is moved only if A has none at all
+                    let t = format!("\n\n/begin IF_DATA XCP{n_new} 1 2 /begin SEG 3 /end SEG /end IF_DATA\n/begin IF_DATA CCP{n_new} 4 /end IF_DATA\n");
+                    if let Ok(frag) = a2lfile::load_fragment(&t, None) {
+                        b.project.module[0].if_data = frag.if_data;
+                        if a.project.module[0].if_data.is_empty() {
+                            rec.bump("merge.brings_if_data");
+                        }
+                    }
+                }
+                let a_has_if_data = !a.project.module[0].if_data.is_empty();
+                let mut before = keys_of_module(&b, 0).unwrap_or_default();
+                if a_has_if_data {
+                    before.retain(|k| k.0 != "IF_DATA");
+                }
                 if a.project.module[0].variant_coding.is_some() {
                     // A keeps its own VARIANT_CODING, B's is not moved
                     before.retain(|k| k.0 != "VARIANT_CODING");
@@ -474,6 +512,8 @@ pub fn run(args: &Args, rec: &mut Recorder) {
         None
     });
     rec.floor("op.Push", 10);
+    rec.floor("histories_on_second_module", 5);
+    rec.floor("merge.brings_if_data", 3);
     rec.floor("op.Merge", 5);
     rec.floor("op.SortNew", 10);
     rec.floor("op.Write", 5);
